@@ -179,6 +179,7 @@ def run(ctx):
                   'before any write and rolls the transaction back', 'GD')
     from mstatic.rules import shared as _shc
     _shc.cas_primitive_reports_loss(ctx, r1)
+    _shc.repeated_result_refused(ctx, r1)
     f = prog.func('mistral.engine.actions.RegularAction.complete')
     cfg = ctx.cfg(f)
     n_w = 0
